@@ -55,11 +55,19 @@ def prop_config(case, ctx):
     ctx.label(f"d={d}", "cache" if use_cache else "nocache", f"dr={dr_min}/{dr_max}", f"nswp={nswp}")
     kw = dict(dr_min=dr_min, dr_max=dr_max, m_cache_scale=1e9)
 
+    # the caller may keep ONE info dictionary and hand it to every call (the docs only say it "will be filled"): each call
+    # must overwrite whatever an earlier call left in it; every second run therefore reuses this dictionary
+    shared_info = {}
+    run_no = [0]
+
     def run(none_at=None, cb=None, max_calls=4000, **args):
         f = Objective(F, none_at=none_at, max_calls=max_calls)
-        info = {}
+        run_no[0] += 1
+        info = shared_info if run_no[0] % 2 == 0 else {}
         cache = {} if use_cache else None
         Y = ctx.lib(teneva.cross, f, Y0, info=info, cache=cache, cb=cb, **{**kw, **args})
+        for key in ("m", "e", "e_vld", "nswp", "m_cache", "stop"):
+            ctx.check(key in info, "info lacks a documented entry after the call", key=key, reused_dictionary=(info is shared_info))
         why = oracle.wellformed(Y, n)
         ctx.check(why is None, f"cross returned a malformed / non-finite tensor: {why}", args={k: v for k, v in args.items() if k in ("m", "nswp", "e", "e_vld")}, none_at=none_at, info_stop=info.get("stop"))
         ctx.check(info["stop"] in DOCUMENTED, "undocumented stop reason", stop=info["stop"])
@@ -131,6 +139,42 @@ def prop_config(case, ctx):
             ctx.check(info["stop"] == "nswp" and info["nswp"] == nswp, "budget not binding: run should finish by nswp", m=m, stop=info["stop"])
         if info["stop"] == "m":
             ctx.check(info["m"] + sizes[j] > m, "stop='m' although the next batch fits into the budget", m=m, done=info["m"], next=sizes[j])
+
+    # ---- budgets with a cache that is already warm on entry (filled by an earlier run from another initial tensor)
+    if use_cache:
+        Y0w = ctx.lib(teneva.rand, n, case["r0"], seed=case["y0seed"] + 1)
+        warm = {}
+        ctx.lib(teneva.cross, Objective(F), Y0w, nswp=1, info={}, cache=warm, **kw)
+        fw = Objective(F)
+        iw = {}
+        cw = dict(warm)
+        ctx.lib(teneva.cross, fw, Y0, nswp=nswp, info=iw, cache=cw, **kw)
+        ctx.check(iw["stop"] == "nswp" or (iw["stop"] == "conv" and iw["m_cache"] > 1e9 * iw["m"]), "warm cache: unexpected stop reason", stop=iw["stop"])
+        Bw = fw.batches
+        szw = [len(b) for b in Bw]
+        cumw = np.concatenate([[0], np.cumsum(szw)]).astype(int)
+        ctx.check(iw["m"] == fw.evaluated, "warm cache: info['m'] differs from the number of evaluated indices")
+        asked = {tuple(int(x) for x in row) for b in Bw for row in b}
+        ctx.check(not (asked & {tuple(int(x) for x in k) for k in warm}), "warm cache: an index already in the cache was evaluated again")
+        bud = sorted({int(c) + dlt for c in cumw for dlt in (-1, 0, 1) if 1 <= c + dlt <= int(cumw[-1]) + 1})[:60]
+        for m in bud:
+            j = 0
+            while j < len(Bw) and cumw[j + 1] <= m:
+                j += 1
+            fm = Objective(F)
+            im = {}
+            Ym = ctx.lib(teneva.cross, fm, Y0, nswp=nswp, m=m, info=im, cache=dict(warm), **kw)
+            ctx.check(oracle.wellformed(Ym, n) is None, "warm cache + budget: malformed result", m=m)
+            ctx.check(fm.evaluated <= m and im["m"] == fm.evaluated, "warm cache + budget: budget exceeded or info['m'] wrong", m=m, evaluated=fm.evaluated, info_m=im["m"])
+            ctx.check(batches_equal(fm.batches, Bw[:j]), "warm cache + budget: run is not the prefix of the unconstrained run that fits the budget",
+                      m=m, calls=len(fm.batches), predicted=j, warm_entries=len(warm))
+            if j < len(Bw):
+                ctx.check(im["stop"] == "m", "warm cache + budget: should stop by budget exactly when the next batch of NEW indices would exceed it", m=m, stop=im["stop"])
+            else:
+                # with (almost) everything served from the warm cache the documented 'conv' reason may end the run first
+                ok = im["stop"] == "nswp" or (im["stop"] == "conv" and im["m_cache"] > 1e9 * im["m"])
+                ctx.check(ok, "warm cache + budget not binding: should finish by nswp (or by 'conv' when nothing new is evaluated)", m=m, stop=im["stop"])
+            ctx.inner(1, nontrivial_key=f"w{m}" if j < len(Bw) else None)
 
     # ---- objective returns None at its k-th call, for every k
     for k in range(1, K + 1):
